@@ -20,7 +20,12 @@
 #ifndef VF_BMAX
 #define VF_BMAX 1
 #endif
-#if VF_EXT
+#if VF_EXT == 2
+/* fixed frame: extension bit set, b absent, bitmap of 2 bits (length 2, 6 unused bits): these octets are constants, so that
+ * the bit count handed to asn_bit_data_new_contiguous is concrete (an allocation of symbolic size exhausts the SAT back end);
+ * a, c, the two bitmap bits and everything after them stay arbitrary */
+#define VF_EXT_BOUND(b) do { (b)[0] = 0x80; (b)[5] = 2; (b)[6] = 6; } while(0)
+#elif VF_EXT
 #define VF_EXT_BOUND(b) __CPROVER_assume((b)[5] <= VF_BMAX + 1 && (b)[7] <= VF_BMAX + 1)
 #else
 #define VF_EXT_BOUND(b) do { } while(0)
